@@ -71,14 +71,14 @@ class StubGen:
         raise Unsupported(f"GENERATOR.{name} inside a symbolic trace")
 
 
-def _sensors(A, v, given=True, **kw):
+def _sensors(A, v, given=True, freq=100.0, **kw):
     M = A.utils.sensors
     M.GENERATOR = StubGen()
     kw.setdefault('gyr_noise', v['sg']); kw.setdefault('acc_noise', v['sa']); kw.setdefault('mag_noise', v['sm'])
     kw.setdefault('reference_gravitational_vector', v.vec(*G))
     kw.setdefault('reference_magnetic_vector', v.vec(*MREF))
     if given:
-        return M.Sensors(quaternions=v.mat(QR), freq=100.0, **kw)
+        return M.Sensors(quaternions=v.mat(QR), freq=freq, **kw)
     saved = M.random_angpos
     M.random_angpos = lambda **k: v.mat(AR)
     try:
@@ -101,6 +101,12 @@ def targets():
            '[.gyroscopes, .biases_gyroscopes, .ang_vel], radians'),
         mk('gyro_deg', gin, lambda A, v: (lambda s: [s.gyroscopes, s.biases_gyroscopes, s.ang_vel])(_sensors(A, v, in_degrees=True)),
            '[.gyroscopes, .biases_gyroscopes, .ang_vel], degrees'),
+        mk('gyro_rad_50', gin, lambda A, v: (lambda s: [s.gyroscopes, s.biases_gyroscopes, s.ang_vel])(_sensors(A, v, in_degrees=False, freq=50.0)),
+           'the same at freq=50.0'),
+        mk('gyro_rad_333', gin, lambda A, v: (lambda s: [s.gyroscopes, s.biases_gyroscopes, s.ang_vel])(_sensors(A, v, in_degrees=False, freq=333.0)),
+           'the same at freq=333.0'),
+        mk('gyro_deg_333', gin, lambda A, v: (lambda s: [s.gyroscopes, s.biases_gyroscopes, s.ang_vel])(_sensors(A, v, in_degrees=True, freq=333.0)),
+           'degrees at freq=333.0'),
         mk('repr', QN + MREF + ['sm'], lambda A, v: (lambda s: [np.asarray(s.quaternions), s.rotations, s.ang_pos])(_sensors(A, v)),
            '[.quaternions, .rotations, .ang_pos] for a given trajectory'),
         mk('from_rpy', ['ro', 'pi', 'ya'],
@@ -130,7 +136,8 @@ def _stages():
     committed to /repo as f81ca90) the positive theorem C20_mag_is_body_field (C20_magfix.v, C20_fixed.v) is an
     obligation instead.  The finding is recorded as `fixed`, so a tree on which it reproduces again is a VIOLATION."""
     live = _finding_live()
-    st2 = ['C20_acc.v', 'C20_mag.v', 'C20_magnorm.v', 'C20_gyro_rad.v', 'C20_gyro_deg.v', 'C20_repr.v',
+    st2 = ['C20_acc.v', 'C20_mag.v', 'C20_magnorm.v', 'C20_gyro_rad.v', 'C20_gyro_deg.v', 'C20_gyro_rad_50.v',
+           'C20_gyro_rad_333.v', 'C20_gyro_deg_333.v', 'C20_repr.v',
            'C20_rand.v', 'C20_firstorder.v', 'C20_euler.v']
     st3 = ['C20.v']
     st2.append(('C20_refuted.v', {'finding': TAG_MAG0}) if live else 'C20_magfix.v')
@@ -166,7 +173,7 @@ def _draws(seed, n, skip=None):
     return out
 
 
-def _impl_given(c, seed, what, **kw):
+def _impl_given(c, seed, what, freq=100.0, **kw):
     import ahrs
     _reseed(seed)
     Q = np.array([[c[x] for x in r] for r in QR])
@@ -174,7 +181,7 @@ def _impl_given(c, seed, what, **kw):
                 reference_magnetic_vector=np.array([c[x] for x in MREF]))
     if 'g0' in c:
         args['reference_gravitational_vector'] = np.array([c[x] for x in G])
-    s = ahrs.Sensors(quaternions=Q, freq=100.0, **args, **kw)
+    s = ahrs.Sensors(quaternions=Q, freq=freq, **args, **kw)
     return what(s)
 
 
@@ -249,6 +256,10 @@ def correspondence(ctx):
     run('C20_mag_norm', _impl_given, lambda s: [s.magnetometers, s.mag_noise], normalized_mag=True)
     run('C20_gyro_rad', _impl_given, lambda s: [s.gyroscopes, s.biases_gyroscopes, s.ang_vel], in_degrees=False)
     run('C20_gyro_deg', _impl_given, lambda s: [s.gyroscopes, s.biases_gyroscopes, s.ang_vel], in_degrees=True)
+    gy = lambda s: [s.gyroscopes, s.biases_gyroscopes, s.ang_vel]
+    run('C20_gyro_rad_50', _impl_given, gy, in_degrees=False, freq=50.0)
+    run('C20_gyro_rad_333', _impl_given, gy, in_degrees=False, freq=333.0)
+    run('C20_gyro_deg_333', _impl_given, gy, in_degrees=True, freq=333.0)
     run('C20_repr', _impl_given, lambda s: [np.asarray(s.quaternions), s.rotations, s.ang_pos])
     import ahrs
     ang = [cm.d(['ro', 'pi', 'ya'], ctx.rng.uniform(-np.pi, np.pi, 3)) for _ in range(n)] + \
